@@ -13,7 +13,7 @@ Oracle: on the real traffic only — Delivery sequence 1,2,3,... with the stored
 from rd_util import run_rd_check, oracle_c42
 
 THEOREMS = ["C42_in_order_no_gaps", "C42_represented_only_while_in_flight", "C42_chain_confirmed_delivered_stored",
-            "C42_progress_confirmed_increases"]
+            "C42_progress_confirmed_increases", "C42_confirmed_to_producer_once_in_order"]
 
 
 def run(ctx):
@@ -26,7 +26,7 @@ META = {
     "ready": True,
     "category": "proof",
     "technique": "Rocq inductive invariant over an executable model of both controllers + faulty network; actor-step conformance of the real controllers on generated fault schedules",
-    "text": "Four theorems for ALL fault schedules of any length (any loss/duplication/reordering/delay of controller traffic, any timer firing, any endpoint behaviour): the Delivery sequence is 1,2,3,... carrying the stored message of each seq; a Delivery is (re)presented only while it is the unconfirmed one in flight and the watermark never goes back; confirmed<=delivered<=stored with the unconfirmed buffer exactly the contiguous run; from every reachable live state with something unconfirmed a computed fault-free continuation (two consumer ticks, loss-free delivery of the newest messages, consumer confirming) strictly increases the producer's confirmedSeq. The real controllers run the same generated schedules step by step and must agree with the Coq model on all traffic and 30 state fields; an independent oracle checks the property on the real traffic, including confirmation of everything after a loss-free fair tail.",
+    "text": "Five theorems for ALL fault schedules of any length (any loss/duplication/reordering/delay of controller traffic, any timer firing, any endpoint behaviour): the Delivery sequence is 1,2,3,... carrying the stored message of each seq; a Delivery is (re)presented only while it is the unconfirmed one in flight and the watermark never goes back; confirmed<=delivered<=stored with the unconfirmed buffer exactly the contiguous run; from every reachable live state with something unconfirmed a computed fault-free continuation (two consumer ticks, loss-free delivery of the newest messages, consumer confirming) strictly increases the producer's confirmedSeq; the DeliveryConfirmed notices told to the producer endpoint are exactly the stored messages 1..confirmedSeq, once each, in order. The real controllers run the same generated schedules step by step and must agree with the Coq model on all traffic and 30 state fields; an independent oracle checks the property on the real traffic, including confirmation of everything after a loss-free fair tail.",
     "design_ref": "DESIGN.md 7/C42",
     "level_note": "Proved over the volatile whole-payload core. Second layer (real code under the same fault schedules + property oracle, no Coq model): chunked flows, durable-queue lane. Not covered: controller restarts (excluded by the statement), cross-node companion resolution, serializer internals.",
 }
